@@ -79,6 +79,11 @@ def concretise(rnd, cfg):
                 s = corpus.random_vector(rnd, other)[3]
             else:
                 s = rnd.choice(["x", "CVSS:3.1/", "AV:N", "7.5", "CVSS:4.0/AV:N", " ", "/"])
+            if rnd.random() < 0.35:
+                # characters that command-line conventions give a meaning to (option files, home directories, variables, globs, ...)
+                # in front of / behind / instead of the vector: to the calculator they are just an invalid VECTOR
+                ch = rnd.choice(list("@+~$%!*?#&;|<>()[]{}^`'\"=,.:/\\") + ["@@", "@/dev/null", "@-", "~/", "$HOME", "%s", "*.*", "=x", "file:", "--"[:0] + "+v"])
+                s = rnd.choice([ch + s, s + ch, ch])
             s = s.replace("\x00", "0")          # a NUL byte cannot occur in an argument vector
             if s.startswith("-") or s == "":
                 s = "x" + s
@@ -113,6 +118,12 @@ def run(prop, tier, seed):
         for s in corpus.prefix_variants(rnd):
             s = s.replace("\x00", "0")
             items.append({"args": [esc(a) for a in rnd.choice([[], ["-3"], ["-4"], ["-j"]]) + ["-v", s]], "stdin": []})
+        # extra: every character that command-line conventions give a meaning to, in front of a valid vector and alone, as VECTOR
+        for ch in list("@+~$%!*?#&;|<>()[]{}^`'\"=,.:/\\") + ["@@", "@/dev/null", "@-", "~/", "$HOME", "%s", "*.*", "=x", "file:"]:
+            v_ = rnd.choice("234")
+            for s in (ch + corpus.random_vector(rnd, v_)[3], ch):
+                a_ = rnd.choice([[], ["-" + v_], ["-j"], ["-" + v_, "-j"]]) + ["-v", s]
+                items.append({"args": [esc(a) for a in a_], "argv": [esc(a) for a in a_], "stdin": []})
         # extra: interactive entry with a very long run of rejected answers before the accepted ones
         for fl in ([], ["-2"], ["-3"], ["-4"]):
             items.append({"args": [esc(a) for a in fl], "stdin": [esc(a) for a in ["junk"] * 1300 + (UNIVERSAL * 40)[:400]]})
